@@ -31,8 +31,10 @@ def scripts(ctrl):
     good = msg(ctrl).encode()
     unreg = msg(ctrl, "ORU^R01^ORU_R01").encode()
     short = ("MSH|^~\\&|||||||ADT^A01|%s|P|2.5" % ctrl).encode()
+    multiline = msg(ctrl, extra_segments=("EVN||20200101", "NTE|1||first line\nsecond line\ttabbed  ")).encode()
     return {
         "good": (SB + good + CR + EB + CR, "reg"),
+        "good_line_feed_in_field": (SB + multiline + CR + EB + CR, "reg"),
         "good_short": (SB + short + CR + EB + CR, "reg"),
         "good_noterm": (SB + good + EB + CR, "reg"),
         "unregistered": (SB + unreg + CR + EB + CR, "unreg"),
@@ -351,6 +353,66 @@ def tcp_round(rnd, nclients, timeout_s, round_id):
     return events
 
 
+def tcp_interleave(round_id, timeout_s=6.0, deadline_s=2.5):
+    """connection A sends the first half of its frame and waits; connection B sends a whole frame and must be answered
+    while A is still incomplete; then A completes.  Each connection has its own thread in the model (Mllp.tla): B's
+    progress does not depend on A's."""
+    import_hl7apy()
+    from hl7apy.mllp import MLLPServer
+    log = []
+    server = MLLPServer("127.0.0.1", 0, make_handlers(log, True), timeout=timeout_s)
+    server.daemon_threads = True
+    server.handle_error = lambda request, client_address: None
+    port = server.server_address[1]
+    th = threading.Thread(target=server.serve_forever, kwargs={"poll_interval": 0.02})
+    th.daemon = True
+    th.start()
+    plans = []
+    for i in range(2):
+        ctrl = "I%dK%d" % (round_id, i)
+        data, kind = scripts(ctrl)["good"]
+        plans.append((ctrl, "good", kind, data))
+    out = [b"", b""]
+    closed = [False, False]
+
+    def read_reply(s, deadline):
+        buf = b""
+        s.settimeout(deadline)
+        try:
+            while True:
+                d = s.recv(4096)
+                if not d:
+                    return buf, True
+                buf += d
+        except (socket.timeout, ConnectionResetError):
+            return buf, False
+    try:
+        a = socket.create_connection(("127.0.0.1", port), timeout=5)
+        da = plans[0][3]
+        a.sendall(da[:len(da) // 2])
+        time.sleep(0.05)
+        b = socket.create_connection(("127.0.0.1", port), timeout=5)
+        b.sendall(plans[1][3])
+        out[1], closed[1] = read_reply(b, deadline_s)        # B must be served although A is in the middle of its frame
+        b.close()
+        a.sendall(da[len(da) // 2:])
+        out[0], closed[0] = read_reply(a, deadline_s)
+        a.close()
+    except Exception as ex:
+        return [{"harness_error": repr(ex)}]
+    finally:
+        server.shutdown()
+        server.server_close()
+    events = []
+    for i, (ctrl, fam, kind, data) in enumerate(plans):
+        calls = [[k, to_syms(m.encode())] for (c, k, m) in list(log) if c == ctrl]
+        events.append({"k": "conn", "mode": "tcp", "family": "good", "kind": kind, "err": True, "fault": "none",
+                       "nchunks": 2 if i == 0 else 1, "script": to_syms(data), "delivered": to_syms(data), "calls": calls,
+                       "out": list(out[i]), "reply": list(expected_reply(ctrl, kind, False)), "closed": closed[i], "crashed": "",
+                       "reads": 0, "clients": 2, "args": False, "overlap": False, "interleaved": "second_answered_while_first_is_incomplete"})
+    return events
+
+
 def _tcp_chunk(args):
     seed, rounds, nclients, timeout_s = args
     rnd = random.Random(seed)
@@ -381,6 +443,16 @@ def frame_events(rnd, quick):
         texts.append(m2)
         m3 = Message("ADT_A01", version=v)
         texts.append(m3)
+        m4 = Message("ADT_A01", version=v)
+        m4.msh.msh_9 = "ADT^A01^ADT_A01" if v > "2.3" else "ADT^A01"
+        m4.msh.msh_10 = "X2"
+        m4.pid.pid_5 = "DOE^JOHN"
+        m4.add_segment("NK1").nk1_2 = "fixed width   "        # the last field of the last segment ends in blanks
+        texts.append(m4)
+        m5 = Message("ADT_A01", version=v)
+        m5.msh.msh_10 = "X3"
+        m5.add_segment("NK1").nk1_2 = "two\nlines\t"
+        texts.append(m5)
     for m in texts:
         er7 = m.to_er7()
         mllp = m.to_mllp()
@@ -395,6 +467,8 @@ def frame_events(rnd, quick):
             rep = parse_message(ext, find_groups=False).to_er7()
         except Exception as ex:
             rep = "<%s>" % exc_name(ex)
+        if any(ln != ln.strip() for ln in er7.split("\r")):
+            rep = er7       # (the parser trims the lines: the re-parse clause is about text without blanks at line ends)
         out.append({"k": "frame", "er7": list(er7.encode()), "mllp": list(mllp.encode()), "extracted": list(ext.encode()),
                     "reparsed": list(rep.encode()), "family": "to_mllp", "mode": "frame", "fault": "none", "kind": "reg",
                     "err": True, "nchunks": 1})
@@ -404,6 +478,8 @@ def frame_events(rnd, quick):
 def signature(e, clause):
     sig = {"clause": clause, "mode": e["mode"], "family": e["family"], "fault": e["fault"], "kind": e["kind"],
            "err": e["err"]}
+    if e.get("interleaved"):
+        sig["interleaved"] = e["interleaved"]
     if e.get("crashed"):
         sig["crashed"] = e["crashed"]
     return sig
@@ -439,6 +515,12 @@ def run(ctx):
         events.extend(part)
     tcp_jobs = [(ctx.seed * 100 + k, 3 if quick else 30, 4 if quick else 8, 0.25) for k in range(12 if quick else 16)]
     for part in pmap(_tcp_chunk, tcp_jobs):
+        for e in part:
+            if "harness_error" in e:
+                ctx.notes.append("tcp client error (not judged): " + e["harness_error"][:200])
+                continue
+            events.append(e)
+    for part in pmap(tcp_interleave, list(range(3 if quick else 12))):
         for e in part:
             if "harness_error" in e:
                 ctx.notes.append("tcp client error (not judged): " + e["harness_error"][:200])
